@@ -51,3 +51,28 @@ def p_pages(ctx):
             if st == REFUTED:
                 ctx.violation(name, {"function": fn, "model": e[1], "solver_output": str(e[1])[:600], "snippet": None}, False,
                               what=(e[4] or "")[:200])
+
+
+# ---- the labels of a categorical column (shared by C06 / C14 / C17; C03 gets them through p_pages) -------------------------------------
+_LABELS = re.compile(r"categorical_labels_are_this_chunks_dictionary|dictionary_page\.(categories_installed_from_it|labels_fit_the_code_dtype|"
+                     r"converted_once_and_kept)|invariant_(on_entry|preserved)\[categories are the chunk's dictionary|out_of_reach")
+
+
+def p_catlabels(ctx):
+    """read_col[categorical] only, and of it the obligations that say which labels the output categorical ends up with: partial and full
+    reads (C06), many-file reads (C14) and metadata-only answers (C17) all rely on `labels == the dictionary of the chunk just read, for
+    any prior state of the shared category definition`.  All of them are PROVED on the unchanged tree (no finding is mapped here).
+    Wiring: optional_parts(("_pages", "p_catlabels")) in props/C06.py, props/C14.py, props/C17.py."""
+    ctx.assumptions += [a for a in c03_pages.ASSUMED if a not in ctx.assumptions]
+    for res in c03_pages.check(ctx, 10000 if ctx.tier == "quick" else 60000, parts=("read_col_cat",)):
+        for name in res.order:
+            if not _LABELS.search(name):
+                continue
+            st = res.status(name)
+            e = next((x for x in res.d[name] if x[0] == st), res.d[name][0])
+            secs = sum(x[2] for x in res.d[name])
+            ctx.obligation(name, "core.read_col", st, e[3], secs, detail=f"{e[4] or ''} [{len(res.d[name])} path(s)]",
+                           model=e[1] if st == REFUTED else None, sample=True)
+            if st == REFUTED:
+                ctx.violation(name, {"function": "core.read_col", "model": e[1], "solver_output": str(e[1])[:600], "snippet": None}, False,
+                              what=(e[4] or "")[:200])
